@@ -3,6 +3,7 @@ Driver part for C32 (watermark).  Ops:
 
   wm.new
   wm.begin <i> | wm.done <i>       a whole call, run to completion (no other thread runs)
+  wm.beginmany <i,j,…> | wm.donemany <i,j,…>   BeginMany / DoneMany, whole calls
   wm.wait <i>                      WaitForMark with an already cancelled context → ok | pending
   wm.spawn <tid> <begin|done> <i>  a call in a scheduled goroutine, parked before its first step
   wm.step <tid>                    run <tid> up to its next yield point
@@ -13,9 +14,18 @@ Driver part for C32 (watermark).  Ops:
 import Driver.Lib
 import NoKVModel.Base.Cfg
 import NoKVModel.Conc.Watermark
+import NoKVModel.Conc.WatermarkWindow
 
+/-
+Whole calls are executed on the micro-step model (`WM.step`, run to completion) whenever a
+scheduled call is parked; when none is, the window-free whole-call semantics `WMW.aCall` is used
+(the gap between doneUntil and a far index is walked without building micro-step states) and, for
+short gaps, compared with the micro-step run.  As long as a case has not scheduled anything, the
+sliding-window model `WMW.call` (window rules from the extracted facts) runs alongside; any
+difference between the three is reported in the model column as `…-diverges`.
+-/
 namespace ConcWM
-open NoKV NoKV.Conc NoKV.Conc.WM Driver
+open NoKV NoKV.Conc NoKV.Conc.WM NoKV.Conc.WMW Driver
 
 structure DSt where
   c : WMCfg := { countsFirst := true }   -- tracksZero / holdsAtDone default to the pre-patch shape
@@ -23,6 +33,12 @@ structure DSt where
   touched : List Nat := []      -- indices that were ever begun (for the spec flag)
   ignored : List Nat := []      -- one entry per Begin whose index was at or below the mark when it started
   tmp : Nat := 1000000          -- thread ids for whole-call ops
+  sched : List Nat := []        -- scheduled thread ids of this case
+  grow : Bool := true           -- wm.growRule = slots
+  copyAll : Bool := true        -- wm.copyRule = all
+  baseAtDone : Bool := true     -- wm.rebuildBase = done
+  win : Option WSt := some initW   -- window model, while the case is purely sequential
+  diverged : String := ""
 
 def setCfg (d : DSt) (kv : String) : Option DSt :=
   match kv.splitOn "=" with
@@ -34,7 +50,10 @@ def setCfg (d : DSt) (kv : String) : Option DSt :=
       else none
     | "wm.tracksZero" => do let b ← boolOfString? v; pure { d with c := { d.c with tracksZero := b } }
     | "wm.holdsAtDone" => do let b ← boolOfString? v; pure { d with c := { d.c with holdsAtDone := b } }
-    | "wm.advanceShape" => if v == "true" then some d else none
+    | "wm.advanceShape" | "wm.windowShape" => if v == "true" then some d else none
+    | "wm.growRule" => if v == "slots" then some { d with grow := true } else if v == "offset" then some { d with grow := false } else none
+    | "wm.copyRule" => if v == "all" then some { d with copyAll := true } else if v == "uptoLast" then some { d with copyAll := false } else none
+    | "wm.rebuildBase" => if v == "done" then some { d with baseAtDone := true } else if v == "donePlus1" then some { d with baseAtDone := false } else none
     | "wm.setDoneUntilCallers" => some d     -- SetDoneUntil is not part of the model; the call sites are pinned by the check
     | _ => if k.startsWith "wm." then none else some d
   | _ => none
@@ -86,30 +105,103 @@ def touch (d : DSt) (i : Nat) : DSt := if d.touched.contains i then d else { d w
 def noteBegin (d : DSt) (i : Nat) : DSt :=
   if i ≤ d.s.doneUntil then { d with ignored := i :: d.ignored } else d
 
+def winCfg (d : DSt) : WinCfg := ⟨d.c, d.grow, d.copyAll, d.baseAtDone⟩
+
+def liveSched (d : DSt) : Bool :=
+  d.sched.any fun t => match d.s.thr t with
+    | some th => atYield d.c th != some "return"
+    | none => false
+
+/-- one element of a whole call on the micro-step model -/
+def microRun (c : WMCfg) (s : St) (tid : Nat) (a : Act) (gapTo : Nat) : St :=
+  match WM.step c false s a with
+  | some s1 => runToEnd c s1 tid (fuelFor s1 gapTo)
+  | none => s
+
+def microCall (c : WMCfg) (s : St) (tmp : Nat) : Call → St × Nat
+  | .begin i =>
+    (microRun c s tmp (if i = 0 ∧ c.tracksZero = false then .adv tmp else .begin tmp i) i, tmp + 1)
+  | .done i => (if i = 0 ∧ c.tracksZero = false then s else microRun c s tmp (.done tmp i) i, tmp + 1)
+  | .beginMany is =>
+    match is.getLast? with
+    | none => (s, tmp)
+    | some l =>
+      let counts (st : St × Nat) : St × Nat := is.foldl (fun (st : St × Nat) i =>
+        (if i = 0 ∧ c.tracksZero = false then st.1 else microRun c st.1 st.2 (.count st.2 i) i, st.2 + 1)) st
+      if c.countsFirst then
+        let st := counts (s, tmp)
+        (microRun c st.1 st.2 (.publish st.2 l) l, st.2 + 1)
+      else
+        -- (the publish-first order has no tryAdvance between the publish and the counts; this
+        -- obsolete configuration is modelled with the one of `publish`)
+        counts (microRun c s tmp (.publish tmp l) l, tmp + 1)
+  | .doneMany is =>
+    is.foldl (fun (st : St × Nat) i =>
+      (if i = 0 ∧ c.tracksZero = false then st.1 else microRun c st.1 st.2 (.done st.2 i) i, st.2 + 1)) (s, tmp)
+
+def toA (s : St) : ASt := { du := s.doneUntil, li := s.lastIndex, cnt := s.cnt, nBegin := s.nCounted, nDone := s.nDoneDec }
+
+def fromA (s : St) (a : ASt) : St :=
+  { s with doneUntil := a.du, lastIndex := a.li, cnt := a.cnt,
+           nBegun := fun j => s.nBegun j + (a.nBegin j - s.nCounted j),
+           nCounted := a.nBegin, nDoneDec := a.nDone }
+
+def callIdx : Call → List Nat
+  | .begin i => [i]
+  | .done i => [i]
+  | .beginMany is => is
+  | .doneMany is => is
+
+def callBegins : Call → List Nat
+  | .begin i => [i]
+  | .beginMany is => is
+  | _ => []
+
+def wholeCall (d : DSt) (k : Call) : DSt :=
+  -- specification bookkeeping: a Begin at or below the mark is outside the property's domain
+  let d := (callBegins k).foldl (fun d i => touch (noteBegin d i) i) d
+  let far := (callIdx k).foldl Nat.max d.s.lastIndex
+  let gap := far - d.s.doneUntil
+  let d1 :=
+    if liveSched d then
+      let (s', tmp') := microCall d.c d.s d.tmp k
+      { d with s := s', tmp := tmp' }
+    else
+      let a' := aCall d.c (toA d.s) k
+      let s' := fromA d.s a'
+      if gap < 3000 then
+        let (sm, tmp') := microCall d.c d.s d.tmp k
+        if sm.doneUntil = s'.doneUntil ∧ sm.lastIndex = s'.lastIndex then { d with s := sm, tmp := tmp' }
+        else { d with s := sm, tmp := tmp', diverged := " microstep-vs-wholecall-diverges" }
+      else { d with s := s' }
+  match d1.win with
+  | none => d1
+  | some w =>
+    let w' := call (winCfg d1) w k
+    if w'.doneUntil = d1.s.doneUntil ∧ w'.lastIndex = d1.s.lastIndex then { d1 with win := some w' }
+    else { d1 with win := some w', diverged := d1.diverged ++ " window-model-diverges" }
+
+def parseList? (s : String) : Option (List Nat) :=
+  if s == "-" then some [] else (s.splitOn ",").mapM natOf?
+
 def step (d : DSt) (toks : List String) : DSt × String :=
   match toks with
-  | ["wm.new"] => ({ d with s := initSt, touched := [], tmp := 1000000 }, "ok\t*")
+  | ["wm.new"] => ({ d with s := initSt, touched := [], ignored := [], tmp := 1000000, sched := [], win := some initW, diverged := "" }, "ok\t*")
   | ["wm.begin", i] =>
     match natOf? i with
-    | some i =>
-      -- index 0 is ignored by addIndex unless wm.tracksZero: Begin(0) is then a bare tryAdvance
-      match WM.step d.c false d.s (if i = 0 ∧ d.c.tracksZero = false then .adv d.tmp else .begin d.tmp i) with
-      | some s1 =>
-        let d := noteBegin d i
-        let d' := touch { d with s := runToEnd d.c s1 d.tmp (fuelFor s1 i), tmp := d.tmp + 1 } i
-        (d', reply d' "done")
-      | none => (d, "bad-op")
+    | some i => let d' := wholeCall d (.begin i); (d', reply d' ("done" ++ d'.diverged))
     | none => (d, "bad-op")
   | ["wm.done", i] =>
     match natOf? i with
-    | some i =>
-      -- … and Done(0) does nothing at all (addIndex returns before tryAdvance)
-      if i = 0 ∧ d.c.tracksZero = false then (d, reply d "done") else
-      match WM.step d.c false d.s (.done d.tmp i) with
-      | some s1 =>
-        let d' := { d with s := runToEnd d.c s1 d.tmp (fuelFor s1 i), tmp := d.tmp + 1 }
-        (d', reply d' "done")
-      | none => (d, "bad-op")
+    | some i => let d' := wholeCall d (.done i); (d', reply d' ("done" ++ d'.diverged))
+    | none => (d, "bad-op")
+  | ["wm.beginmany", l] =>
+    match parseList? l with
+    | some is => let d' := wholeCall d (.beginMany is); (d', reply d' ("done" ++ d'.diverged))
+    | none => (d, "bad-op")
+  | ["wm.donemany", l] =>
+    match parseList? l with
+    | some is => let d' := wholeCall d (.doneMany is); (d', reply d' ("done" ++ d'.diverged))
     | none => (d, "bad-op")
   | ["wm.wait", i] =>
     match natOf? i with
@@ -123,7 +215,9 @@ def step (d : DSt) (toks : List String) : DSt × String :=
       match a with
       | some a =>
         match WM.step d.c false d.s a with
-        | some s1 => (if k == "begin" then touch { d with s := s1 } i else { d with s := s1 }, "ok\t*")
+        | some s1 =>
+          let d := { d with sched := tid :: d.sched, win := none }
+          (if k == "begin" then touch { d with s := s1 } i else { d with s := s1 }, "ok\t*")
         | none => (d, "bad-op")
       | none => (d, "bad-op")
     | _, _ => (d, "bad-op")
